@@ -351,8 +351,10 @@ def run_case(ctx, case, conc, drift=None):
     if r.startswith("EXC:"):
         return "%s raised %s" % (where, r[4:])
     if r == "ValueError":
-        if case["cres"] != "ValueError":
+        if not (case["tail"] == "cmt" or not case["vals"]):       # ListView!CloseMayRefuse
             return "%s raised ValueError, the reference list %r can be written" % (where, expv)
+        if case["cres"] != "ValueError" and drift is not None:
+            drift("%s: ValueError although the model says %s" % (where, case["cres"]))
         if after != text:
             return "%s raised ValueError but the document changed: %r" % (where, after)
         expv = exp0
